@@ -42,7 +42,10 @@ def lexPreserve (ch : Nat) (ls : LS) : LS :=
 
 /-- `lex_comment` (lexer.py:138) -/
 def lexComment (g : Grammar) (ch : Nat) (prev next : Option Nat) (ls : LS) : LS :=
-  if (multiChars g).contains ch then
+  if ls.st == .comment && (singleComments g).any (fun p => p.2 == ls.endd) then
+    -- inside a single-character comment only its own end character is significant
+    lexPreserve ch ls
+  else if (multiChars g).contains ch then
     -- lex_multichar_comments
     if (multiComments g).contains ([47, 42], [42, 47]) then
       if ch == 42 then
@@ -82,7 +85,7 @@ def lexContinue (g : Grammar) (d : Dec) (ch : Nat) (next : Option Nat) (ls : LS)
     else if ls.st != .off then .ok true
     else
       let pd : Dec := ⟨g, .pvl⟩
-      if g.numericStart.contains ch && Tok.isNumeric pd [ch, n] then .ok true
+      if g.numericStart.contains ch && Tok.isNumeric pd [ch, n, 48] then .ok true
       else if ndPreFull g.ndPrePattern (ls.lexeme ++ [n]) then .ok true
       else if (ch == 101 || ch == 69) && g.numericStart.contains n
               && Tok.isNumeric pd (ls.lexeme ++ [n, 50]) then .ok true
